@@ -70,11 +70,12 @@ def run(ctx, chk):
     st_read = prog.field_offset("cbor_decoder_result", "read")
     st_status = prog.field_offset("cbor_decoder_result", "status")
     FIN = prog.enum("cbor_decoder_status")["CBOR_DECODER_FINISHED"]
-    ps = P.Executor(prog, eff, loop_bound=2, inline=O.static_callees(prog, eff, "cbor_load")).run("cbor_load")
+    ps = P.Executor(prog, eff, loop_bound=2, arith_events=True).run("cbor_load")
     chk.floor("C14.window", "paths of cbor_load (up to 3 decoder calls)", len(ps), 40)
     nd = ncont = 0
     for k, pa in enumerate(ps):
         decodes = pa.calls("cbor_stream_decode")
+        valid_total, _problems = DR.running_read(prog, pa, RES, read_off)
         for i, d in enumerate(decodes):
             nd += 1
             a_src, a_size = d.args[1], d.args[2]
@@ -87,7 +88,7 @@ def run(ctx, chk):
                 oks = a_size == ("op", "sub", "i64", SIZE, r)
             else:
                 r, oks = None, False
-            okr = r is not None and (r == ("c", 0) or (r[0] == "ld" and r[1] == RES and r[2] == read_off) or r[0] == "op")
+            okr = r is not None and valid_total(r)
             chk.ob("C14.window", "path %d call %d: window is (source + r, size - r)" % (k, i), oks and okr, d.ins.loc(), fn=f.name,
                    key="win:%d:%d" % (k, i), detail="" if oks and okr else "source arg %s, size arg %s" % (DR.fmt_term(a_src), DR.fmt_term(a_size)))
         # continuation: between two decode calls the last test of the stack size says "non-empty"; on the root return
@@ -133,26 +134,19 @@ def run(ctx, chk):
                                                        for b in f.blocks if b.id in f.loops().get(h.id, ()) for i in b.insts)]
     if len(latches) != 1:
         raise AnalysisBroken("cbor_load: expected one decode loop, found %d" % len(latches))
-    # accumulate: stores to result->read
+    # accumulate: the running total (kept in result->read or in a local stored back at the exits) only ever grows by the
+    # read counts of FINISHED decoder results
     ns = 0
     for k, pa in enumerate(ps):
-        cur_status = None
-        fi = 0
-        for e in pa.events:
-            while fi < e.nfacts:
-                t, truth, _ = pa.facts[fi]
-                if t[0] == "in" and t[1][0] == "ld" and t[1][2] == st_status and len(t[2]) == 1:
-                    cur_status = t[2][0]
-                elif t[0] == "icmp" and t[1] == "eq" and isinstance(t[2], tuple) and t[2][0] == "ld" and t[2][2] == st_status and P.is_const(t[3]) and truth:
-                    cur_status = t[3][1]
-                fi += 1
-            if e.kind == "store" and ptr_key(e.args[0]) == (RES, read_off):
-                v = e.args[1]
-                parts = [v] if v[0] != "op" else [v[3], v[4]]
-                has_dec = any(x[0] == "ld" and x[2] == st_read and x[1][0] == "alloca" for x in parts)
-                ok = has_dec and cur_status == FIN and (v[0] != "op" or v[1] == "add")
-                ns += 1
-                chk.ob("C14.accumulate", "path %d: read += FINISHED result only" % k, ok, e.ins.loc(), fn=f.name, key="acc:%d:%d" % (k, ns),
-                       detail="" if ok else "read := %s under status %s" % (DR.fmt_term(v), cur_status))
+        _valid, problems = DR.running_read(prog, pa, RES, read_off)
+        adds = [e for e in pa.events if e.kind == "arith" and e.callee == "add" and
+                any(isinstance(x, tuple) and x[0] == "ld" and x[2] == st_read and isinstance(x[1], tuple) and x[1][0] == "alloca" for x in e.args)]
+        stores = [e for e in pa.events if e.kind == "store" and ptr_key(e.args[0]) == (RES, read_off)]
+        bad = {id(e): txt for e, txt in problems}
+        for e in adds + stores:
+            ns += 1
+            ok = id(e) not in bad
+            chk.ob("C14.accumulate", "path %d: read += FINISHED result only" % k, ok, e.ins.loc(), fn=f.name, key="acc:%d:%s:%d" % (k, e.kind, e.ins.id),
+                   detail="" if ok else bad[id(e)])
     chk.floor("C14.accumulate", "updates of read", ns, 20)
     chk.exhaustive = True
